@@ -137,6 +137,13 @@ func cmdRun(args []string) {
 		float64(sum.Stats.SolverNS)/1e9, float64(sum.Stats.MaxQueryNS)/1e6)
 	fmt.Printf("  model-cache hits=%d steps=%d maxdepth=%d\n", sum.CacheHits, sum.Steps, sum.MaxDepth)
 	fmt.Printf("  reached=%v asserts(symbolic)=%v asserts(concrete)=%v\n", sum.Reached, sum.Asserts, sum.AssertsConc)
+	if sum.RaceStats.Events > 0 {
+		fmt.Printf("  race analysis: events=%d sync=%d accesses=%d candidates=%d queries=%d sat=%d unsat=%d unknown=%d solver=%.1fs\n", sum.RaceStats.Events, sum.RaceStats.SyncEvents,
+			sum.RaceStats.Accesses, sum.RaceStats.Candidates, sum.RaceStats.Queries, sum.RaceStats.Sat, sum.RaceStats.Unsat, sum.RaceStats.Unknown, float64(sum.RaceSolverNS)/1e9)
+		for k, r := range sum.Races {
+			fmt.Printf("  RACE %s %s: %s [%s / %s] %s\n", r.Kind, r.Loc, k, r.WhatA, r.WhatB, r.Order)
+		}
+	}
 	for i, v := range sum.Violations {
 		if i > 4 {
 			break
